@@ -556,6 +556,7 @@ impl Args {
         let a = Args(std::env::args().skip(1).collect());
         // `--stale`: build every state with stale copies of destroyed elements in its dead slots
         crate::mapsys::set_stale(a.flag("stale"));
+        crate::mapsys::set_ctor(a.get("ctor"));
         a
     }
     pub fn get(&self, key: &str) -> Option<&str> {
